@@ -326,6 +326,12 @@ func genbankFeatureParser(gb *GenBank, depth int) pars.Parser {
 		}
 		pars.Line(state, result)
 		state.Clear()
+		// An empty feature table is written as a blank line.
+		if c, err := pars.Next(state); err == nil && (c == '\n' || c == '\r') {
+			pars.Line(state, result)
+			gb.Table = nil
+			return nil
+		}
 		if err := fieldBodyParser(state, result); err != nil {
 			return err
 		}
